@@ -401,7 +401,7 @@ func runCrashTasks(c *explore.Ctx, pool *explore.Pool, id string, tasks []crashT
 	c.Coverage["histories"] = done
 	c.Coverage["histories_planned"] = len(tasks)
 	c.Coverage["positions_by_kind"] = byKind
-	c.Coverage["exhaustive"] = exh && done == len(tasks)
+	c.SetExhaustive(exh && done == len(tasks))
 	c.Coverage["worker_crashes"] = pool.Crashes
 	if len(tasks) > 0 {
 		c.Sample(map[string]any{"cfg": tasks[0].Cfg, "history": tasks[len(tasks)/2].Ops})
